@@ -24,7 +24,7 @@ package copier
 //@   ensures fsw >= old(fsw) && fsw <= old(fsw) + 1
 
 //@ func Copier.CopyN results(written, err)
-//@   tags C02,C04,C17
+//@   tags C02,C04,C17,C13
 //@   requires c != nil && w != nil && r != nil && n >= 0 && limbase[r] == 0 && fpos[r] >= 0
 //@   modifies wn[wsink(w)], wdata[wsink(w)], fpos, limbase, iofaults, fsw
 //@   let u = wsink(w)
@@ -32,7 +32,7 @@ package copier
 //@   ensures wn[u] >= old(wn[u]) && wn[u] <= old(wn[u]) + n @at-most-n
 //@   ensures forall k {wdata[u][k]} :: k < old(wn[u]) ==> wdata[u][k] == old(wdata[u][k]) @prefix-kept
 //@   ensures[C02] forall k {wdata[u][k]} :: old(wn[u]) <= k && k < wn[u] ==> wdata[u][k] == fcontent[r][old(fpos[r]) + k - old(wn[u])] @bytes
-//@   ensures[C02] err == nil <==> wn[u] == old(wn[u]) + n @all-or-error
+//@   ensures[C02,C13] err == nil <==> wn[u] == old(wn[u]) + n @all-or-error
 //@   ensures fpos[r] == old(fpos[r]) + wn[u] - old(wn[u]) && forall g {fpos[g]} :: old(allocated(g)) && g != r ==> fpos[g] == old(fpos[g])
 //@   ensures forall g {limbase[g]} :: old(allocated(g)) ==> limbase[g] == old(limbase[g]) @limbase-kept
 //@   ensures isconn[u] ==> fsw == old(fsw)
